@@ -28,6 +28,26 @@ static void lookup_check(const char *sub, const char *lab, size_t n) {
         mc_violation(sub, "unlisted-label-found", "", "", buf, n, "label is not in punycode.csv but is_tld returned %d", got);
 }
 
+/* the same answer through the address validators: a row's label as the last label of x@a.<label>, TLD check on, must come back with the
+ * CSV class in every mode (a pre-filter in front of the table walk must not hide a row) */
+static int C_VIAEMAIL;
+static void email_check(const char *sub, const char *v, size_t n) {
+    typedef eav_result_t *(*email_fn)(const char *, size_t, bool);
+    static const email_fn EM[4] = { is_822_email, is_5321_email, is_5322_email, is_6531_email };
+    static const char *const MN[4] = { "822", "5321", "5322", "6531" };
+    char a[400]; if (n + 8 > sizeof a) return;
+    memcpy(a, "x@a.", 4); memcpy(a + 4, v, n); a[4 + n] = 0;
+    if (ref_special(a + 2, n + 2)) return;
+    int exp = rt_lookup(&RT_PUNY, v, n); if (!exp) return;
+    for (int m = 0; m < 4; m++) {
+        char cfg[32]; snprintf(cfg, sizeof cfg, "mode=%s", MN[m]); mc_current(sub, cfg, v, n);
+        eav_result_t *r = EM[m](a, n + 4, true); int rc = r->rc; eav_result_free(r);
+        MC_ADD(C_EVAL, 1); MC_ADD(C_VIAEMAIL, 1);
+        if (rc != exp) { char w[64]; snprintf(w, sizeof w, "row-through-is_%s_email:%s", MN[m], rc < 0 ? "not-found" : "wrong-class");
+            mc_violation(sub, w, "", cfg, v, n, "CSV class %s(%d) but is_%s_email(x@a.LABEL, tld on) returned %d", rt_name[exp], exp, MN[m], rc); }
+    }
+}
+
 static void rows_shard(long shard, void *arg) {
     (void)arg; rt_row_t *r = &RT_PUNY.row[shard]; size_t n = strlen(r->domain); char v[300];
     if (n >= sizeof v) return;
@@ -44,6 +64,7 @@ static void rows_shard(long shard, void *arg) {
             v[i] = (char)c;
         }
         lookup_check("rows", v, n); MC_ADD(C_ROWS, 1);
+        email_check("viaemail", v, n);
     }
     /* table entry i <-> row i */
     if (shard >= TABN) { mc_violation("members", "table-shorter-than-csv", "", "", r->domain, n, "tld_list has %d entries, row %ld has none", TABN, shard); return; }
@@ -113,7 +134,8 @@ static void files_shard(long shard, void *arg) {
 static int do_replay(void) {
     mc_replay_t r; if (mc_load_replay(mc_replay, &r)) return 2;
     mc_replay_hit = 0;
-    if (!strncmp(r.sub, "rows", 4) || !strncmp(r.sub, "nonrows", 7)) lookup_check(r.sub, (char *)r.in, (size_t)r.len);
+    if (!strncmp(r.sub, "viaemail", 8)) email_check(r.sub, (char *)r.in, (size_t)r.len);
+    else if (!strncmp(r.sub, "rows", 4) || !strncmp(r.sub, "nonrows", 7)) lookup_check(r.sub, (char *)r.in, (size_t)r.len);
     else {   /* members / files: re-run the shard that owns this domain */
         char d[600]; memcpy(d, r.in, (size_t)r.len); d[r.len] = 0; char *dot = strchr(d, '.'); if (dot && !strncmp(r.sub, "files", 5)) *dot = 0;
         for (int i = 0; i < RT_PUNY.n; i++) {
@@ -129,7 +151,7 @@ static int do_replay(void) {
 int main(int argc, char **argv) {
     mc_init(argc, argv, "C11");
     C_ROWS = mc_counter("row_lookups"); C_NONROWS = mc_counter("non_row_lookups"); C_FILES = mc_counter("file_rows"); C_MEMBER = mc_counter("table_entries_checked");
-    C_HIT = mc_counter("expected_listed"); C_MISS = mc_counter("expected_unlisted");
+    C_HIT = mc_counter("expected_listed"); C_VIAEMAIL = mc_counter("row_lookups_through_address_validators"); C_MISS = mc_counter("expected_unlisted");
     if (rt_load()) return 2;
     while (tld_list[TABN].domain) TABN++;
     char p[1024]; snprintf(p, sizeof p, "%s/data/raw.csv", rt_repo());
